@@ -150,3 +150,53 @@ trapz = Fn(I + 'trapz', ret='r', level='L1',
 UNITS.append(Unit('C07_trapz', 'C07', [trapz], spec=SPEC + TRAPZ_SPEC, nra=TRAPZ_NRA, preludes=PRE, broadcast=BC, level='L1', types=core.TYPES, type_spec=core.TYPE_SPEC,
                   notes='trapz on a caller-supplied integrand: for every number of panels n >= 1 and every integrand that returns c0 + c1 x the result is (b - a)(c0 + c1 (a + b)/2), the exact integral; '
                         'the interior sum runs over k = 1..n-1 exactly once each'))
+
+# ---------------------------------------------------------------- Romberg: Richardson tableau structure and the level of the returned estimate
+ROM_SPEC = r'''
+pub open spec fn ipow2(e: nat) -> int { vstd::arithmetic::power2::pow2(e) as int }
+pub proof fn lemma_ipow2_bound(e: nat) requires e <= 30 ensures 1 <= ipow2(e) <= 0x4000_0000
+{
+    vstd::arithmetic::power2::lemma2_to64();
+    vstd::arithmetic::power2::lemma_pow2_pos(e);
+    if e < 30 { vstd::arithmetic::power2::lemma_pow2_strictly_increases(e, 30); }
+}
+pub assume_specification [u32::pow] (base: u32, exp: u32) -> (r: u32)
+    requires base == 2 && exp <= 30
+    ensures r == ipow2(exp as nat);
+/// `approx_eq::rel_diff` - assumed contract of the dependency, abstract
+pub uninterp spec fn rel_diff_fn(a: f64, b: f64) -> f64;
+#[verifier::external_body]
+pub fn rel_diff(a: f64, b: f64) -> (r: f64) ensures r == rel_diff_fn(a, b) { unimplemented!() }
+/// Richardson extrapolation: entry (n,m) of the tableau from its left and upper-left neighbours, for 1 <= m <= n <= upto
+pub open spec fn richardson(t: Seq<f64>, w: int, upto: int) -> bool {
+    forall|n: int, m: int| 1 <= m <= n <= upto && n < w ==> #[trigger] at2(t, w, n, m)
+        == f_add(at2(t, w, n, m - 1), f_div(f_sub(at2(t, w, n, m - 1), at2(t, w, n - 1, m - 1)), f_sub(f_powi(4.0f64, m as i32), 1.0f64)))
+}
+/// what romberg returns: a diagonal entry of a Richardson tableau, of the last level or of a level >= 2 (property C07: "k levels")
+pub open spec fn romberg_result(nmax: int, r: f64) -> bool {
+    exists|t: Seq<f64>, lvl: int| t.len() == nmax * nmax && #[trigger] richardson(t, nmax, lvl) && r == at2(t, nmax, lvl, lvl) && 0 <= lvl < nmax && (lvl == nmax - 1 || lvl >= 2)
+}
+'''
+RSHP = 'r.nrows == nmax && r.ncols == nmax && wf(r)'
+romberg = Fn(I + 'romberg', ret='res', level='L0',
+             requires=['C07.romberg.levels:: 1 <= nmax <= 31', 'C07.romberg.total:: forall|x: f64| f.requires((x,))'],
+             ensures=['C07.romberg.level:: romberg_result(nmax as int, res)'],
+             rewrites=[('let s: f64 = (1..=2_u32.pow((n - 1) as u32)).map(|k| f(a + (2 * k - 1) as f64 * hn)).sum();',
+                        'let s: f64 = ({ let e_ = 2_u32.pow((n - 1) as u32); let mut acc_ = 0.; for k in 1..=e_ { acc_ = acc_ + f(a + (2 * k - 1) as f64 * hn); } acc_ });',
+                        'R37: `(A..=B).map(|k| E).sum()` written as its defining loop (iterator adapters lose their specification in functions generic over a closure)')],
+             loops={1: {'invariant': [RSHP, '1 <= nmax <= 31', 'forall|x: f64| f.requires((x,))'],
+                        'body_start': 'lemma_ipow2_bound((n - 1) as nat); lemma_idx(n as int, 0, nmax as int, nmax as int); lemma_row(n as int - 1, nmax as int, nmax as int);'},
+                    2: {'invariant': ['forall|x: f64| f.requires((x,))', '1 <= e_ <= 0x4000_0000']},
+                    3: {'invariant': [RSHP, '1 <= nmax <= 31', 'C07.romberg.rows:: richardson(r.data.v@, nmax as int, n - 1)']},
+                    4: {'invariant': [RSHP, '1 <= n < nmax', 'C07.romberg.rows.m:: richardson(r.data.v@, nmax as int, n - 1)',
+                                                         'C07.romberg.row:: forall|q: int| 1 <= q < m && q <= n ==> #[trigger] at2(r.data.v@, nmax as int, n as int, q) == f_add(at2(r.data.v@, nmax as int, n as int, q - 1), f_div(f_sub(at2(r.data.v@, nmax as int, n as int, q - 1), at2(r.data.v@, nmax as int, n - 1, q - 1)), f_sub(f_powi(4.0f64, q as i32), 1.0f64)))'],
+                        'body_ghost': 'let ghost pre_t = r.data.v@;',
+                        'body_start': 'lemma_idx(n as int, m as int, nmax as int, nmax as int); lemma_idx(n as int, m as int - 1, nmax as int, nmax as int); lemma_idx(n as int - 1, m as int - 1, nmax as int, nmax as int);',
+                        'body_end': ('assert forall|i: int, j: int| 0 <= i < nmax && 0 <= j < nmax && !(i == n && j == m) implies #[trigger] at2(r.data.v@, nmax as int, i, j) == at2(pre_t, nmax as int, i, j) by '
+                                     '{ lemma_idx(i, j, nmax as int, nmax as int); if i * nmax + j == n * nmax + m { lemma_idx_inj(i, j, n as int, m as int, nmax as int); } }')}},
+             hints=[('let mut r = Matrix::zeros(nmax, nmax);', 'before', 'proof { assert(nmax * nmax <= 961) by(nonlinear_arith) requires 1 <= nmax <= 31; }'),
+                    ('return r[[n, n]];', 'pre', 'proof { assert(richardson(r.data.v@, nmax as int, n as int)); lemma_idx(n as int, n as int, nmax as int, nmax as int); } '),
+                    ('\n            r[[nmax - 1, nmax - 1]]\n', 'replace', '\n proof { assert(richardson(r.data.v@, nmax as int, nmax - 1)); }\n r[[nmax - 1, nmax - 1]]\n')])
+UNITS.append(Unit('C07_romberg', 'C07', [romberg], use=core.core_stubs(), spec=SPEC + ROM_SPEC, preludes=PRE, broadcast=BC, level='L0', types=core.TYPES, type_spec=core.TYPE_SPEC, rlimit=100,
+                  notes='romberg returns a diagonal entry of a tableau whose entries (n,m), m >= 1, are the Richardson extrapolation of their left and upper-left neighbours with factor 4^m - 1; '
+                        'the early exit can only return a level >= 2 (or the last level); the first column (refined trapezoid sums of the caller-supplied integrand) is left unconstrained'))
